@@ -75,6 +75,31 @@ def deep_chains(nscopes):
             yield t
 
 
+def forks(full):
+    """FORKS: module > function with TWO children over the reduced catalogue - a sibling scope A (def or class) that
+    changes how the function's variable must be stored (nonlocal/global/closure forms), next to a chain B of one or two
+    scopes that uses the name (both orders).  This is the smallest shape in which the lowering of one inner scope
+    depends on what a *sibling* did to the variable; the full product reaches it only at 5 scopes.
+    full=False: B is an expression-scope chain (lambda/comprehension/generator, <= 2 deep) or one def/class;
+    full=True : B is any chain of <= 2 scopes."""
+    singles = [(k, r, ()) for k in ("F", "C") for r in CHAIN_ROLES[k]]
+    exprs1 = [(k, r, ()) for k in ("L", "G", "E") for r in CHAIN_ROLES[k]]
+    B = list(singles) + list(exprs1)
+    for k1, r1, _ in exprs1:
+        for inner in exprs1:
+            B.append((k1, r1, (inner,)))
+    if full:
+        for k1, r1, _ in singles:
+            for inner in singles + exprs1:
+                B.append((k1, r1, (inner,)))
+    for mrole in CHAIN_ROLES["M"]:
+        for frole in CHAIN_ROLES["F"]:
+            for a in singles:
+                for b in B:
+                    yield ("M", mrole, (("F", frole, (a, b)),))
+                    yield ("M", mrole, (("F", frole, (b, a)),))
+
+
 def assign_roles(t):
     kind, ch = t
     child_opts = [list(assign_roles(c)) for c in ch]
